@@ -48,6 +48,8 @@ impl BuildTargetActor {
 
             futures::select! {
                 _ = self.helper.termination_events.next().fuse() => {
+                    #[cfg(zinoma_verif)]
+                    crate::zinoma_verif::note_actor_event(&self.helper.target_id, "T");
                     termination_event_received = true;
                     if let Some(ongoing_build_cancellation_sender) = &mut ongoing_build_cancellation_sender {
                         if ongoing_build_cancellation_sender.try_send(BuildCancellationMessage).is_err() {
@@ -58,9 +60,13 @@ impl BuildTargetActor {
                     }
                 },
                 _ = self.helper.target_invalidated_events.next().fuse() => {
+                    #[cfg(zinoma_verif)]
+                    crate::zinoma_verif::note_actor_event(&self.helper.target_id, "I");
                     self.helper.notify_invalidated(ExecutionKind::Build).await
                 }
                 message = self.helper.target_actor_input_receiver.next().fuse() => {
+                    #[cfg(zinoma_verif)]
+                    crate::zinoma_verif::note_actor_message(&self.helper.target_id, message.as_ref().unwrap());
                     match message.unwrap() {
                         ActorInputMessage::Ok { kind, target_id, .. } => {
                             self.helper.unavailable_dependencies.get_mut(&kind).unwrap().remove(&target_id);
@@ -110,6 +116,8 @@ impl BuildTargetActor {
                     }
                 }
                 build_result = ongoing_build_fuse => {
+                    #[cfg(zinoma_verif)]
+                    crate::zinoma_verif::note_actor_build_result(&self.helper.target_id, &build_result);
                     ongoing_build_cancellation_sender = None;
 
                     match build_result {
